@@ -482,6 +482,51 @@ def clause_e(ctx: Context) -> None:
     ctx.obligation("C10e", "forward maps|no masked singularity", not any(f.rule == "C10e" for f in ctx.findings), functions=n_fn)
 
 
+def clause_f(ctx: Context) -> None:
+    """The hand-written derivative of the Fock-space recurrence of an interferometer is the derivative of the recurrence."""
+    from . import _interferometer_recurrence as ir
+    from .. import loopnest as ln
+    ctx.rule("C10f", "_calculate_subspace_grad accumulates d R / d U[r, c] of the recurrence R[k, i] = 1/H4[k] sum_j H3[i, j] U[H1[k], j] "
+                     "PREV[H2[k], H0[i, j]] (product rule in index notation, the forward normal form read from the numba implementation); its "
+                     "driver starts from the unit matrix E_rc, carries the derivative from level to level, reads the previous representation "
+                     "and the tables at the forward pass's offsets and pairs level p with upstream[p]")
+    try:
+        r = ir.analyse(ctx)
+    except ln.Unreadable as e:
+        ctx.error(f"C10f: {e}; undecided")
+        return
+    g, fwd = r["grad"], r["numba"]
+    gfn, dfn = r["grad_fn"], r["driver_fn"]
+    want = ln.normal_form(ln.derivative(fwd["poly"], "U", ("v", "r"), ("v", "c"), "PREV", "PGRAD"))
+    ok = want == g["nf"]
+    key = "_calculate_subspace_grad|d recurrence / d U[r, c]"
+    ctx.obligation("C10f", key, ok, where=f"{ctx.relpath(gfn.file)}:{gfn.line}", got=ln.show(g["nf"]), want=ln.show(want))
+    if not ok:
+        ctx.violation("C10f", key, gfn.file, gfn.line,
+                      f"the hand-written derivative of the Fock-space recurrence is {ln.show(g['nf'])}; differentiating the forward recurrence "
+                      f"({ln.show(fwd['nf'])}) with respect to U[r, c] gives {ln.show(want)}", construct=ln.show(g["nf"])[:200])
+    for msg in g["axis_conflicts"]:
+        ctx.violation("C10f", f"_calculate_subspace_grad|axis|{msg}", gfn.file, gfn.line, f"in the gradient loop nest {msg}", construct=msg)
+    f = g["facts"]
+    checks = [
+        ("carried derivative", bool(f.get("carry")),
+         f"the derivative of the previous level (`{f.get('carry_name')}`) is not re-assigned from the result of {gfn.name} inside the level loop"),
+        ("table offsets", sorted(f["table_offsets"]) == fwd["table_offsets"],
+         f"the helper tables are read at offsets {sorted(f['table_offsets'])} from the level, the forward pass reads them at {fwd['table_offsets']}"),
+        ("previous level", sorted(f["prev_offsets"]) == fwd["prev_offsets"],
+         f"the previous representation is read at offsets {sorted(f['prev_offsets'])} from the level, the forward pass reads it at {fwd['prev_offsets']}"),
+        ("upstream level", sorted(f["upstream_offsets"]) == [0],
+         f"the derivative of level p is paired with upstream at offsets {sorted(f['upstream_offsets'])} (the representation of level p is entry p of the list)"),
+        ("one table tuple", len(f["tables_source"]) == 1, f"the tables are taken from several tuples: {sorted(f['tables_source'])}"),
+    ]
+    for name, good, msg in checks:
+        key = f"_calculate_interferometer_gradient_on_fock_space|{name}"
+        ctx.obligation("C10f", key, good, where=f"{ctx.relpath(dfn.file)}:{g['line']}")
+        if not good:
+            ctx.violation("C10f", key, dfn.file, g["line"], msg, construct=name)
+    ctx.require_floor("C10f obligations (derivative of the recurrence, driver protocol)", 1 + len(checks), 6)
+
+
 def run(ctx: Context) -> None:
     ctx.explanation = (
         "static / symbolic analysis of the hand-written gradient rules: numpy roll-and-weight idioms read as ladder-operator words and "
@@ -493,3 +538,4 @@ def run(ctx: Context) -> None:
     clause_a(ctx)
     clause_b(ctx)
     clause_e(ctx)
+    clause_f(ctx)
